@@ -43,7 +43,23 @@ def stats_from_history(desc, hist, extra_fired=None):
     return st
 
 
+def unreported_hang(hist):
+    """Safety net for every check: a run that did not terminate (deadlock, step cap, virtual-time cap) is never
+    acceptable, whatever the property under test is looking at - unless the check itself killed the process."""
+    for r in hist.records:
+        sim = r.sim
+        if sim.hung is not None and sim.abort_reason in ("deadlock", "step-cap", "virtual-time-cap"):
+            return dict(oracle="hang", msg=f"run did not terminate: {sim.hung['why']} at step {sim.hung['steps']}; "
+                                           f"threads: {sim.hung['threads'][:4]}",
+                        tags={"interrupt": any(k.startswith("interrupt") for k in r.rt.fired), "safety_net": True})
+    return None
+
+
 def result(desc, hist, violations, extra=None):
+    if not violations:
+        h = unreported_hang(hist)
+        if h is not None:
+            violations = [h]
     res = dict(
         digest=hist.h.hexdigest(),
         violations=violations,
